@@ -173,8 +173,8 @@ def run_case(case):
     if case.get('seq'):
         mon = Monitor()
         params[Monitor.DELTA] = 0.5
-        top = ProcessSequence([proc, mon])
-        procs = [proc, mon]
+        top = ProcessSequence([mon, proc])
+        procs = [mon, proc]
     top.setMaximumTime(case['maxtime'])
     dcls = ep.StochasticDynamics if case['dynamics'] == 'stochastic' else ep.SynchronousDynamics
     dyn = dcls(top, g)
@@ -202,7 +202,7 @@ def run_case(case):
             else:
                 ends = [net.nodes[e].get(compvar) if e in net else '<gone>']
                 isedge = None
-            entries.append({'fn': getattr(ef, '__name__', str(ef)), 'name': name, 't': t, 'e': e, 'clock': dyn.currentSimulationTime(),
+            entries.append({'fn': getattr(ef, '__name__', str(ef)), 'name': name, 'locus': locus.name() if hasattr(locus, 'name') else None, 'li': lindex(locus), 't': t, 'e': e, 'clock': dyn.currentSimulationTime(),
                             'member': member, 'ends': ends, 'isedge': isedge, 'posted': state['posted'] > 0,
                             'vacc': (net.nodes[e[0]].get(ep.SIvR.VACCINATED), net.nodes[e[0]].get(ep.SIvR.VACCINATION_TIME)) if (model == 'SIvR' and isinstance(e, tuple)) else None,
                             'nrand0': len(orc.log)})
@@ -214,9 +214,17 @@ def run_case(case):
         return w
 
     registration = {}
+    lspecs = []
+
+    def lindex(l):
+        for i, x in enumerate(dyn.loci().values()):
+            if x is l or x is getattr(l, '_locus', None):
+                return i
+        return -1
 
     def started(params_):
         state['started'] = True
+        state['started_rand'] = len(orc.values('random'))
         for p in top.allProcesses():
             for attr, kind in (('_perElementEvents', 'elem'), ('_perLocusEvents', 'fixed')):
                 evs = getattr(p, attr, None)
@@ -224,10 +232,20 @@ def run_case(case):
                     continue
                 new = []
                 for (l, pr, ef, name) in evs:
-                    registration.setdefault(index.get(id(p), -1), []).append({'kind': kind, 'locus': l.name() if hasattr(l, 'name') else str(l), 'p': pr,
+                    registration.setdefault(index.get(id(p), -1), []).append({'kind': kind, 'locus': l.name() if hasattr(l, 'name') else str(l), 'li': lindex(l), 'p': pr,
                                                                                'fn': getattr(ef, '__name__', str(ef)), 'name': name})
                     new.append((l, pr, wrap(l, ef, name, True), name))
                 setattr(p, attr, new)
+        from epydemic.opinion_model import MultiCompartmentedEdgeLocus
+        for nm, l in dyn.loci().items():
+            if isinstance(l, MultiCompartmentedEdgeLocus):
+                lspecs.append([nm, 'multi', l._left, sorted(l._rights)])
+            elif isinstance(l, ep.CompartmentedEdgeLocus):
+                lspecs.append([nm, 'edge', l._left, l._right])
+            elif isinstance(l, ep.CompartmentedNodeLocus):
+                lspecs.append([nm, 'node', l._compartment])
+            else:
+                lspecs.append([nm, 'plain'])
         if model == 'SIR_VariableInfection':
             proc.infect = wrap(proc.locus(ep.SIR.SI), proc.infect, ep.SIR.INFECTED, True)
         for n in case.get('vacc', []):
@@ -284,9 +302,13 @@ def run_case(case):
         kscript.uninstall_draw_recorder()
     md = (rc or {}).get(epyc.Experiment.METADATA, {}) if rc else {}
     res = (rc or {}).get(epyc.Experiment.RESULTS, {}) if rc else {}
-    obs = {'exception': exc, 'entries': entries, 'snaps': snaps, 'final': final, 'registration': registration,
+    monitor = None
+    if case.get('seq') and isinstance(res, dict) and Monitor.OBSERVATIONS in res:
+        monitor = {'times': list(res[Monitor.OBSERVATIONS]),
+                   'series': [list(res.get(Monitor.timeSeriesForLocus(sp_[0]), [])) for sp_ in lspecs]}
+    obs = {'exception': exc, 'entries': entries, 'loci_specs': lspecs, 'monitor': monitor, 'started_rand': state.get('started_rand'), 'snaps': snaps, 'final': final, 'registration': registration,
            'results': {k: v for k, v in res.items() if isinstance(v, (int, float))} if isinstance(res, dict) else {},
-           'time': md.get(Dynamics.TIME), 'events': md.get(Dynamics.EVENTS),
+           'time': md.get(Dynamics.TIME), 'events': md.get(Dynamics.EVENTS), 'steps': md.get(SynchronousDynamics.TIMESTEPS_WITH_EVENTS, 0),
            'rands': [e[1] for e in orc.values('random')], 'lns': list(rec.logs), 'draws': [d[1] for d in rec.draws],
            'inst': inst, 'order': g.order(), 'events_log': [(s['t'], s['name'], s['e']) for s in snaps[1:]]}
     if exc and exc.startswith('Budget'):
